@@ -577,6 +577,49 @@ def r_itermut(body, refs):
         n += 1
 
 
+def r_genrange(body):
+    """RNG.gen_range(LO..HI)  ->  RNG.gen_range_(LO, HI)   (prelude: some value in the half-open range; every outcome is covered).  (R-genrange)"""
+    log = []
+    while True:
+        m = code_mask(body)
+        mo = None
+        for x in re.finditer(r"\.gen_range\(", body):
+            if m[x.start()]:
+                mo = x
+                break
+        if mo is None:
+            return body, log
+        close = match_close(body, m, mo.end() - 1)
+        arg = body[mo.end():close]
+        parts = arg.split("..")
+        if len(parts) != 2 or "=" in parts[1][:1]:
+            raise Unsupported("R-genrange: `lo..hi` argument expected")
+        new = ".gen_range_(%s, %s)" % (parts[0].strip(), parts[1].strip())
+        log.append(("R-genrange", norm_ws(body[mo.start():close + 1])[:160], new[:160]))
+        body = body[:mo.start()] + new + body[close + 1:]
+
+
+def r_getmut(body, skip):
+    """IDENT.get_mut(E)  ->  vec_get_mut_(&mut IDENT, E)  for a local vector IDENT (prelude: Option of a mutable borrow of the E-th element, the vector
+    afterwards holds what the borrow was left at).  Receivers listed in `skip` (maps with their own get_mut) are left alone.  (R-getmut)"""
+    log = []
+    pos = 0
+    while True:
+        m = code_mask(body)
+        mo = None
+        for x in re.finditer(r"\b(\w+)\.get_mut\(", body):
+            if m[x.start()] and x.start() >= pos and x.group(1) not in skip:
+                mo = x
+                break
+        if mo is None:
+            return body, log
+        close = match_close(body, m, mo.end() - 1)
+        new = "vec_get_mut_(&mut %s, %s)" % (mo.group(1), body[mo.end():close].strip())
+        log.append(("R-getmut", norm_ws(body[mo.start():close + 1])[:160], new[:160]))
+        body = body[:mo.start()] + new + body[close + 1:]
+        pos = mo.start() + len(new)
+
+
 def r_setappend(body, recv):
     """RECV.append(&mut E)  ->  set_append(&mut RECV, E)   for a BTreeSet receiver: vstd does not specify BTreeSet::append; the prelude's
     `set_append` carries std's documented semantics (union; the argument is drained).  (R-setappend)"""
@@ -1720,6 +1763,12 @@ def emit_fn(f, udir, unit_props, recs, log_global):
             log += l
         if "continue" in rewrites:
             body, l = r_continue(body)
+            log += l
+        if "genrange" in rewrites:
+            body, l = r_genrange(body)
+            log += l
+        if "getmut" in rewrites:
+            body, l = r_getmut(body, f.get("getmut_skip", []))
             log += l
         if "itermut" in rewrites:
             body, l = r_itermut(body, f.get("itermut_refs", []))
